@@ -154,7 +154,22 @@ pub fn exec_case_isolated(prop: &str, stage: &str, case: &serde_json::Value, tim
         .spawn();
     let Ok(mut child) = child else { return CaseOutcome::Timeout };
     let _ = child.stdin.take().unwrap().write_all(input.as_bytes());
-    let _ = timeout_s;
+    // watchdog: poll, kill the child after the limit
+    let deadline = Instant::now() + Duration::from_secs(timeout_s.max(1));
+    loop {
+        match child.try_wait() {
+            Ok(Some(_)) => break,
+            Ok(None) => {
+                if Instant::now() > deadline {
+                    let _ = child.kill();
+                    let _ = child.wait();
+                    return CaseOutcome::Timeout;
+                }
+                std::thread::sleep(Duration::from_millis(5));
+            }
+            Err(_) => break,
+        }
+    }
     match child.wait_with_output() {
         Ok(o) => {
             if let Ok(v) = serde_json::from_slice::<serde_json::Value>(&o.stdout) {
